@@ -519,11 +519,16 @@ func toInt(v any) (int, bool, bool) {
 	case json.Number:
 		i, err := v.Int64()
 		if err != nil {
-			if _, err = v.Float64(); err != nil {
-				return 0, false, false
+			d, err := decimal128.Parse(v.String())
+			if err != nil {
+				if _, err = v.Float64(); err != nil {
+					return 0, false, false
+				}
+
+				return 0, true, false
 			}
 
-			return 0, true, false
+			return toInt(d)
 		}
 
 		if i > math.MaxInt || i < math.MinInt {
